@@ -49,11 +49,13 @@ DYNAMIC = {
     "C02": dict(profiles=["reclaim", "weak", "core"], mode="od", tags=["C02"]),
     "C03": dict(profiles=["core", "protocol", "pacing"], mode="od", tags=["C03"]),
     "C04": dict(profiles=["core", "weak", "reclaim"], mode="od", tags=["C04"]),
-    "C05": dict(profiles=["weak", "finalize"], mode="od", tags=["C05"]),
-    "C06": dict(profiles=["barrier", "metrics"], mode="od", tags=["C06"]),
-    "C07": dict(profiles=["finalize"], mode="od", tags=["C07"]),
+    # a reachable value lost after an upgrade-and-store / a barriered adoption / a resurrection is a
+    # violation of the weak / barrier / finalization property too: C01's monitor counts for them
+    "C05": dict(profiles=["weak", "finalize"], mode="od", tags=["C05", "C01"]),
+    "C06": dict(profiles=["barrier", "metrics", "weak"], mode="od", tags=["C06", "C01"]),
+    "C07": dict(profiles=["finalize"], mode="od", tags=["C07", "C01"]),
     "C08": dict(profiles=["protocol", "pacing", "finalize"], mode="sd", tags=["C08"]),
-    "C09": dict(profiles=["pacing", "protocol"], mode="sd", tags=["C09"]),
+    "C09": dict(profiles=["pacing", "protocol", "soak"], mode="sd", tags=["C09"]),
     "C10": dict(profiles=["metrics", "pacing", "fault"], mode="sd", tags=["C10"], release_too=True),
     "C11": dict(profiles=["fault"], mode="od", tags=["C01", "C02", "C03", "C04", "C05", "C11"]),
     "C20": dict(profiles=["multi"], mode="od", tags=["C20", "C01", "C02", "C03", "C04", "C05"]),
@@ -324,8 +326,11 @@ def run_dynamic(prop, cfg, tier, seed, exe, t0, time_budget):
     jobs = []
     for profile in cfg["profiles"]:
         chunk = max(1, T["count"] // per)
+        maxops = T["maxops"]
+        if profile == "soak":      # few, long sequences: sustained allocation against paced cycles
+            chunk, maxops = max(2, chunk // 25), 420
         for k in range(per):
-            jobs.append((profile, sub_seed(seed, profile, k), chunk, T["maxops"], f"{prop}.{profile}.{k}"))
+            jobs.append((profile, sub_seed(seed, profile, k), chunk, maxops, f"{prop}.{profile}.{k}"))
     results = []
     with concurrent.futures.ThreadPoolExecutor(NCPU) as ex:
         futs = [ex.submit(run_chunk, exe, cfg["mode"], *j) for j in jobs]
